@@ -105,12 +105,15 @@ class RecHandler {
     return s;
   }
 
-  bool NeedObj(int) const { return true; }
+  // a handler may want one objective only (what a driver does with objno=k): the reader then skips the others' O and G segments
+  int only_obj = -1;
+  bool NeedObj(int i) const { return only_obj < 0 || i == only_obj; }
   int resulting_obj_index(int i) const { return i; }
 
   // =====================================================================  top-level items
   void OnObj(int index, mp::obj::Type type, E e) {
     top("OnObj"); idx("OnObj.index", index, n_objs); expr_done("OnObj", e);
+    if (!NeedObj(index)) fail("UNWANTED_ITEM", "OnObj", "objective " + std::to_string(index) + " notified although NeedObj() said no");
     once("O", index);
     note("O " + std::to_string(index) + " " + std::to_string((int)type));
     if (want_items) items["O" + std::to_string(index)] = std::to_string((int)type) + " " + ser(e.id);
@@ -177,6 +180,7 @@ class RecHandler {
 
   LinH OnLinearObjExpr(int index, int n) {
     top("OnLinearObjExpr"); idx("OnLinearObjExpr.index", index, n_objs); cnt("OnLinearObjExpr.num_terms", n, 1, n_vars);
+    if (!NeedObj(index)) fail("UNWANTED_ITEM", "OnLinearObjExpr", "gradient of objective " + std::to_string(index) + " notified although NeedObj() said no");
     once("G", index);
     note("G " + std::to_string(index) + " " + std::to_string(n));
     return begin_pending(P_LIN, n, "G" + std::to_string(index));
